@@ -33,6 +33,8 @@ struct G {
     prop: &'static str,
     /// CASE handshakes in their last leg (reserved session id, fabric index)
     pending_hs: Vec<(u32, u8)>,
+    /// "full table" histories: commission until the fabric table is full (no noise, always a NEW fabric)
+    fill: bool,
 }
 
 impl G {
@@ -70,7 +72,7 @@ impl G {
                 if let Some(s) = self.sess_where(v, |s| s.1 == 'p' && !s.3) {
                     return format!("arm {} {}", s, self.r.pick(&[60u64, 60, 30, 120]));
                 }
-                if v.fabrics.is_empty() || self.r.chance(1, 2) {
+                if v.fabrics.is_empty() || self.fill || self.r.chance(1, 2) {
                     if !v.window {
                         if v.fabrics.is_empty() {
                             return "boot".into();
@@ -96,9 +98,10 @@ impl G {
                 if noc_done {
                     // finish over CASE on the fail-safe's fabric
                     if let Some(s) = self.sess_where(v, |s| s.1 == 'c' && s.2 == fab && !s.3) {
-                        // (a fault that would hit the SECOND write of CommissioningComplete is the open
-                        // finding C08-complete-partial-commit: left to the corpus)
-                        if self.r.chance(1, 4) || v.fault_in >= 2 {
+                        // (a fault that hits the SECOND write of CommissioningComplete: repaired for a fabric
+                        // added under the fail-safe, generated; for a fabric that existed before it is what
+                        // is left of the open finding C08-complete-partial-commit: corpus only)
+                        if !self.fill && (self.r.chance(1, 4) || (v.fault_in >= 2 && flags & F_ADD_NOC == 0)) {
                             return self.write_op(s);
                         }
                         return format!("complete {}", s);
@@ -113,7 +116,7 @@ impl G {
                     return format!("cest {} {} {}", fab, self.node(), self.next_rid());
                 };
                 let is_case = v.sessions.iter().any(|x| x.0 == s && x.1 == 'c');
-                if is_case && self.r.chance(2, 3) && flags & (F_ADD_CSR | F_ROOT) == 0 {
+                if is_case && !self.fill && self.r.chance(2, 3) && flags & (F_ADD_CSR | F_ROOT) == 0 {
                     // UpdateNOC flow, or plain network / ACL work under the fail-safe
                     if flags & F_UPD_CSR == 0 {
                         if self.r.chance(1, 3) {
@@ -124,7 +127,7 @@ impl G {
                     return format!("updnoc {} {} {}", s, self.node(), self.next_serial());
                 }
                 if flags & F_ADD_CSR == 0 && flags & F_UPD_CSR == 0 {
-                    if self.r.chance(1, 5) {
+                    if !self.fill && self.r.chance(1, 5) {
                         return format!("net {} {}", s, self.r.range(1, 3));
                     }
                     return format!("csr {} 0", s);
@@ -132,8 +135,60 @@ impl G {
                 if flags & F_ROOT == 0 {
                     return format!("root {} {}", s, self.r.range(1, 3));
                 }
-                let ca = if self.staged != 0 && !self.r.chance(1, 6) { self.staged } else { self.r.range(1, 3) };
-                format!("addnoc {} {} {} {} {} {}", s, ca, self.r.range(1, 3), self.r.range(10, 12), self.node(), self.next_serial())
+                let ca = if self.staged != 0 && (self.fill || !self.r.chance(1, 6)) { self.staged } else { self.r.range(1, 3) };
+                let fid = if self.fill { 1 + v.fabrics.len() as u64 } else { self.r.range(1, 3) };
+                format!("addnoc {} {} {} {} {} {}", s, ca, fid, self.r.range(10, 12), self.node(), self.next_serial())
+            }
+        }
+    }
+
+    /// Full-table history, after the table is full: the fail-safe is armed over a CASE session of an
+    /// EXISTING fabric (it has a stored copy), UpdateNOC and / or fabric-scoped writes are staged under
+    /// it, and it ends WITHOUT completion - timer, ArmFailSafe(0), RevokeCommissioning, restart (the
+    /// rollback then has to re-load the stored copy into a table without a spare slot).
+    /// `left` = staged changes still to make; returns `None` when the tail is over.
+    fn full_tail(&mut self, v: &View, left: &mut u32) -> Option<String> {
+        match v.armed {
+            None => {
+                if *left == 0 {
+                    return None;
+                }
+                if let Some(s) = self.sess_where(v, |s| s.1 == 'c' && !s.3) {
+                    if v.window {
+                        // (a CASE-armed fail-safe is refused while a window is open)
+                        return Some(format!("revoke {}", s));
+                    }
+                    return Some(format!("arm {} {}", s, self.r.pick(&[60u64, 30])));
+                }
+                let f = *self.r.pick(&v.fabrics);
+                Some(format!("cest {} {} {}", f, self.node(), self.next_rid()))
+            }
+            Some((fab, flags)) => {
+                let ctx = self.sess_where(v, |s| s.1 == 'c' && s.2 == fab && !s.3);
+                let Some(s) = ctx else {
+                    return Some(format!("cest {} {} {}", fab, self.node(), self.next_rid()));
+                };
+                if *left > 0 {
+                    *left -= 1;
+                    if flags & F_UPD_NOC == 0 && self.r.chance(1, 2) {
+                        if flags & F_UPD_CSR == 0 {
+                            *left += 1;
+                            return Some(format!("csr {} 1", s));
+                        }
+                        return Some(format!("updnoc {} {} {}", s, self.node(), self.next_serial()));
+                    }
+                    return Some(self.write_op(s));
+                }
+                // the end without completion
+                let other = self.any_sess(v);
+                Some(match self.r.below(7) {
+                    0 | 1 => format!("tick {}", self.r.pick(&[61u64, 121])),
+                    2 => format!("arm {} 0", s),
+                    3 => format!("arm {} 0", other),
+                    4 => format!("revoke {}", self.r.pick(&[s, other])),
+                    5 => "poll".into(),
+                    _ => "restart".into(),
+                })
             }
         }
     }
@@ -180,7 +235,7 @@ impl G {
             20..=27 => self.write_op(s),
             28..=29 => format!("rmnet {} {}", s, self.r.range(1, 3)),
             30..=34 => {
-                if v.fault_in >= 2 {
+                if v.fault_in >= 2 && !v.armed.map(|(_, fl)| fl & F_ADD_NOC != 0).unwrap_or(false) {
                     "poll".into()
                 } else {
                     format!("complete {}", s)
@@ -207,9 +262,9 @@ impl G {
             83..=85 => "flush".into(),
             86..=89 => "restart".into(),
             90..=92 => {
-                // (C07: a fault while a fail-safe is armed can hit the purge of a rollback - open finding
-                // C07-failed-purge-on-rollback, left to the corpus)
-                if c07 && (v.armed.is_some() || self.r.chance(1, 2)) {
+                // (C07: a fault while a fail-safe is armed can hit the purge of a rollback - the repaired
+                // finding C07-failed-purge-on-rollback; generated since the repair)
+                if c07 && self.r.chance(1, 2) {
                     "poll".into()
                 } else {
                     format!("kvfail {}", self.r.range(1, 2))
@@ -243,6 +298,11 @@ impl G {
                     format!("fabrecover {}", self.r.pick(&[1u64, 1, 2, 3, 200, 255]))
                 } else if c11 && self.r.chance(1, 2) {
                     "freset".into()
+                } else if c07 && v.fault_in == 0 && self.r.chance(1, 2) {
+                    // (C07: the factory reset of the RUNNING node - the sessions and resumption records of
+                    // the fabrics must go with them; one that is hit by a store fault is the open finding
+                    // C07-faulty-factory-reset-leaves-keys: corpus only)
+                    "freset".into()
                 } else {
                     format!("tick {}", self.r.range(1, 70))
                 }
@@ -251,8 +311,12 @@ impl G {
     }
 }
 
-fn gen_case(out: &mut Out, cas: &Rc<Vec<Ca>>, id: u64, seed_rng: &mut Rng, prop: &'static str, len: usize) {
-    let mut g = G { r: seed_rng.fork(), serial: 0, rid: 0, staged: 0, forbidden_crash: Vec::new(), deferred_case_write: false, prop, pending_hs: Vec::new() };
+fn gen_case(out: &mut Out, cas: &Rc<Vec<Ca>>, id: u64, seed_rng: &mut Rng, prop: &'static str, len: usize, full: bool) {
+    let mut g = G { r: seed_rng.fork(), serial: 0, rid: 0, staged: 0, forbidden_crash: Vec::new(), deferred_case_write: false, prop, pending_hs: Vec::new(), fill: full };
+    // full-table history: 0 = fill the table, 1 = the tail (see `full_tail`), 2 = free
+    let mut phase = if full { 0 } else { 2 };
+    let mut tail_left: u32 = 0;
+    let mut free_left: usize = len;
     out.case(id, &header());
     let mut w = World::new(cas.clone());
     // how eager this case is to make progress (some cases are mostly noise)
@@ -262,9 +326,34 @@ fn gen_case(out: &mut Out, cas: &Rc<Vec<Ca>>, id: u64, seed_rng: &mut Rng, prop:
     let mut nt_end = false;
     let mut nt_gone_with_refs = false;
     let mut nt_restart = false;
-    for _ in 0..len {
+    // (a full-table history takes ~9 operations per fabric before its tail starts)
+    let max_ops = if full { len + 12 * rs_matter::fabric::MAX_FABRICS } else { len };
+    for _ in 0..max_ops {
         let v = w.view();
-        let op = if g.r.below(100) < eager { g.progress(&v) } else { g.noise(&v) };
+        if phase == 0 && v.fabrics.len() >= rs_matter::fabric::MAX_FABRICS && v.armed.is_none() {
+            phase = 1;
+            g.fill = false;
+            tail_left = g.r.range(1, 4) as u32;
+            out.stat("cases_full_table", 1);
+        }
+        let op = match phase {
+            0 => g.progress(&v),
+            1 => match g.full_tail(&v, &mut tail_left) {
+                Some(op) => op,
+                None => {
+                    phase = 2;
+                    free_left = free_left.min(8);
+                    g.noise(&v)
+                }
+            },
+            _ => {
+                if free_left == 0 {
+                    break;
+                }
+                free_left -= 1;
+                if g.r.below(100) < eager { g.progress(&v) } else { g.noise(&v) }
+            }
+        };
         let before = v;
         let res = step(out, cas, &mut w, &op);
         let head = res.split(' ').next().unwrap_or("");
@@ -286,7 +375,9 @@ fn gen_case(out: &mut Out, cas: &Rc<Vec<Ca>>, id: u64, seed_rng: &mut Rng, prop:
         if kind == "root" && head == "ok" {
             g.staged = op.split(' ').nth(2).and_then(|x| x.parse().ok()).unwrap_or(0);
         }
-        if kind == "complete" && head == "ok" && after.kvlen == before.kvlen + 2 {
+        // (two store mutations: fabric + networks, or - second write failed - fabric + its removal; a crash
+        // between them is the open finding C11-complete-crash-between-writes: corpus only)
+        if kind == "complete" && after.kvlen == before.kvlen + 2 {
             g.forbidden_crash.push(before.kvlen as u64 + 1);
         }
         if ["crash", "corrupt", "coldreset", "fabrecover"].contains(&kind) {
@@ -345,13 +436,21 @@ fn h_compat(ops: &[String]) -> Vec<String> {
         let w: Vec<&str> = op.split_whitespace().collect();
         let n = |i: usize| -> u64 { w.get(i).and_then(|x| x.parse().ok()).unwrap_or(0) };
         let kind = w.first().copied().unwrap_or("");
-        if ["open", "arm", "csr", "root", "addnoc", "updnoc", "acl", "grp", "label", "net", "rmnet", "complete", "rmfab", "revoke", "bcw", "gkm"].contains(&kind) {
+        if ["open", "arm", "csr", "root", "addnoc", "updnoc", "acl", "grp", "label", "net", "rmnet", "complete", "rmfab", "revoke", "bcw", "gkm", "addgrp", "ksw"].contains(&kind) {
             last_sid = n(1);
         }
         match kind {
             "freset" | "corrupt" | "hs" | "hsdone" | "coldreset" | "fabrecover" | "rt" => {}
-            // group table writes have no handler on the root endpoint: a group key map write instead
-            "grp" => res.push(format!("gkm {} {}", n(1), n(2))),
+            // a group table write goes through the real Groups cluster of endpoint 1: AddGroup needs an entry
+            // of the group in the fabric's group key map first; repeated for the same group it RE-NAMES it
+            "grp" => {
+                res.push(format!("gkm {} {}", n(1), n(2)));
+                res.push(format!("addgrp {} {} {}", n(1), n(2), 1 + res.len() % 3));
+            }
+            "acl" => {
+                res.push(op.clone());
+                res.push(format!("ksw {} {} {}", n(1), 1 + n(2) % 2, res.len() % 5));
+            }
             // the real 1-second poll runs anyway: a subscription over the last session instead
             "poll" => res.push(format!("sub {}", last_sid)),
             "flush" => {
@@ -378,6 +477,65 @@ fn h_compat(ops: &[String]) -> Vec<String> {
         }
     }
     res
+}
+
+/// A handler-level history of RE-WRITES: one fabric is commissioned, then the same few values are
+/// written again and again over its CASE session through the real handlers - AddGroup for a group the
+/// endpoint is already a member of (same name / another name), KeySetWrite of an existing key set,
+/// group key map / binding / user label / node label / fabric label / ACL writes - outside and
+/// inside a fail-safe, with restarts, crash points and store faults in between.  Every accepted
+/// write outside a fail-safe must be in the store when it is acknowledged, whatever it looks like.
+fn rewrite_ops(r: &mut Rng, len: usize) -> Vec<String> {
+    let mut ops: Vec<String> = ["boot", "pase", "arm 0 61", "csr 0 0", "root 0 1", "addnoc 0 1 5 10 100 1", "cest 1 100 1", "complete 1"].iter().map(|x| x.to_string()).collect();
+    // the live CASE session, the next resumption id, whether a fail-safe is (meant to be) armed
+    let mut s: u32 = 1;
+    let mut rid: u64 = 1;
+    let mut armed = false;
+    // the group key map holds ONE entry (a list write replaces): the group AddGroup is accepted for
+    let mut gid: u64 = 1;
+    ops.push(format!("gkm {} {}", s, gid));
+    for _ in 0..len {
+        let x = r.below(100);
+        let op = match x {
+            0..=27 => format!("addgrp {} {} {}", s, gid, r.range(1, 3)),
+            28..=35 => {
+                gid = r.range(1, 2);
+                format!("gkm {} {}", s, gid)
+            }
+            36..=47 => format!("ksw {} {} {}", s, r.range(1, 2), r.range(0, 3)),
+            48..=53 => format!("bind {} {}", s, 300 + r.range(0, 1)),
+            54..=59 => format!("ulabel {} {}", s, r.range(1, 2)),
+            60..=65 => format!("nlabel {} {}", s, r.range(1, 2)),
+            66..=71 => format!("label {} {}", s, r.range(1, 2)),
+            72..=75 => format!("acl {} {}", s, r.range(200, 201)),
+            76..=79 => format!("kvfail {}", r.range(1, 2)),
+            80..=84 => {
+                if armed {
+                    armed = false;
+                    match r.below(3) {
+                        0 => format!("arm {} 0", s),
+                        1 => format!("revoke {}", s),
+                        _ => "tick 203".to_string(),
+                    }
+                } else {
+                    armed = true;
+                    format!("arm {} 61", s)
+                }
+            }
+            _ => {
+                // the node restarts (sessions are gone: a new CASE session, its id starts over)
+                let op = if armed || r.chance(2, 3) { "restart".to_string() } else { format!("crash {}", r.range(0, 12)) };
+                ops.push(op);
+                armed = false;
+                rid += 1;
+                s = 0;
+                format!("cest 1 100 {}", rid)
+            }
+        };
+        ops.push(op);
+    }
+    ops.push("restart".into());
+    ops
 }
 
 pub fn gen(prop: &'static str, a: &Args) -> String {
@@ -409,7 +567,16 @@ pub fn gen(prop: &'static str, a: &Args) -> String {
             out.stat("cases_roundtrip", 1);
             continue;
         }
-        gen_case(&mut out, &cas, id, &mut r, prop, len);
+        if id % 40 == 19 {
+            // (C11b) re-writes through the real handlers
+            let mut rr = r.fork();
+            let ops = rewrite_ops(&mut rr, if a.thorough { 30 } else { 18 });
+            run_case_h(&mut out, &cas, &crate::proto::Case { id: 2_000_000 + id, kind: String::new(), ops });
+            out.buf.push_str("#nt\n");
+            out.stat("cases_handler_rewrites", 1);
+        }
+        // every 60th history fills the fabric table first (`full_tail`)
+        gen_case(&mut out, &cas, id, &mut r, prop, len, id % 60 == 31);
         if id % h_every == 0 {
             // the same history (made handler-compatible) through the REAL cluster handlers
             let text = out.buf[mark..].to_string();
